@@ -51,3 +51,10 @@ add('C09', 'Hypothesis generated reactions / BEP relations / site configurations
     'classes, four site-density operations and four unit systems. Exploration only.',
     'Trusted: unclamped Reaction getters (C08), constants (C12); gas+bulk-only reactions (no surface reactant, not gas phase) are outside the generated domain.',
     'DESIGN.md 3/C09')
+add('C19', 'Hypothesis generated reaction sets / grids / state chains + recomputation oracle (table from the reactions\' own values, column-wise minimality, extrema from the harness\'s own state list)',
+    'Phase diagrams over 1-8 reactions with arbitrary normalisation and two scan variables out of T, P and per-species pressure (1-30 unsorted values, with/without energy units): '
+    'every table entry is recomputed per grid point, the reported stable index must be a minimiser of its column in the 1-D and 2-D scans, shapes are checked and a 2-D scan with a '
+    'singleton axis must equal the 1-D scan; energy spans of chains of 1-8 steps with optional TS are compared with max-min (+ overall dG when the highest state comes first) computed '
+    'from the harness\'s own list of state Gibbs energies for Reactions.get_E_span and Network.get_E_span. Exploration only.',
+    'Trusted: Reaction.get_delta_GoRT and species get_G (C08/C01); states with nearly equal G (order ambiguous) are not generated.',
+    'DESIGN.md 3/C19')
